@@ -65,6 +65,15 @@ func main() {
 			os.Exit(2)
 		}
 		os.Exit(runCheck(f.Property, "quick", f.Key()))
+	case "norm":
+		ctx, err := core.Load(core.RepoDirFromEnv(), "quick", nil)
+		if err != nil {
+			fmt.Println(err)
+			os.Exit(2)
+		}
+		p := ctx.MustPkg(os.Args[2])
+		fd := core.MustFuncDecl(p, os.Args[3])
+		fmt.Println(ctx.Norm(p, fd))
 	case "mutant":
 		os.Exit(rules.RunMutant(os.Args[2:]))
 	default:
